@@ -96,6 +96,7 @@ func (e *kvElection) handleValidationFailure(err error) {
 		)...,
 	)
 
+	verifNote(e, "val_fail", 0)
 	e.becomeFollower()
 
 	e.mu.RLock()
